@@ -908,17 +908,8 @@ def _known(kid, clause, match, what, inputs):
                   'what': what, 'inputs': inputs})
 
 
-_known(
-    'C05-related-model-into-attrs', 'hint-resolves',
-    {'hinted mutation': 'ChangeField carrying a related_model=... argument',
-     'residual diff': "only 'related_model' of that field"},
-    "ChangeField.simulate() copies a changed related_model into "
-    "FieldSignature.field_attrs instead of FieldSignature.related_model, so "
-    "re-targeting a relation (or turning a column into/out of a relation) "
-    "leaves a residual 'related_model' difference.",
-    {'kind': 'pair',
-     'old': make_spec([('f', ['ForeignKey', {'to': 'A'}])]),
-     'new': make_spec([('f', ['ForeignKey', {'to': 'B'}])])})
+# (fixed in /repo: C05-related-model-into-attrs - see known_findings.json 'fixed')
+
 
 _known(
     'C05-retype-same-dbtype-keeps-stale-attrs', 'hint-resolves',
@@ -1620,20 +1611,8 @@ def replay_C05(inputs):
 # C06
 # ---------------------------------------------------------------------------
 
-_known(
-    'C06-json-ordereddict-not-reconstructed', 'json:eq',
-    {'path': 'json / db (SignatureField text, Version.save + reload)',
-     'signature': 'an index condition/expression or a constraint attribute '
-                  'holding a deconstructible object (Q, F, expressions, '
-                  'Value) or an enum (Deferrable)'},
-    "SignatureField.to_python() loads the JSON with "
-    "object_pairs_hook=OrderedDict, but serialization."
-    "_get_serializer_for_value() recognises deconstructed/enum payloads "
-    "only when `cls is dict`; an OrderedDict payload is treated as a plain "
-    "dictionary, so the reloaded signature holds {'_deconstructed': True, "
-    "...} dictionaries instead of Q/F/enum objects: it is != the original "
-    "and Diff reports 'indexes'/'constraints' changed.",
-    {'kind': 'spec', 'spec': make_spec([], {'constraints': [CC_A]})})
+# (fixed in /repo: C06-json-ordereddict-not-reconstructed - see known_findings.json 'fixed')
+
 
 _known(
     'C06-json-tuple-attr-becomes-list', 'json:eq',
@@ -1899,19 +1878,22 @@ def _c06_explain(orig, loaded, path):
                     if path not in ('json', 'db'):
                         return None
 
-                    text = json.dumps(sa.serialize(), default=repr)
-                    found = False
+                    def _listify(value):
+                        if isinstance(value, (list, tuple)):
+                            return [_listify(item) for item in value]
+                        if isinstance(value, dict):
+                            return dict((key, _listify(item)) for key, item in value.items())
+                        return value
 
-                    if '"_deconstructed": true' in text or \
-                            '"_enum": true' in text:
-                        causes.add('C06-json-ordereddict-not-reconstructed')
-                        found = True
-
-                    if attr == 'constraint_sigs' and _has_tuple(sa.attrs):
+                    # (the OrderedDict/_deconstructed loss was repaired in /repo; it is no longer an accepted
+                    # explanation)  A difference that vanishes once tuples are read as lists is the recorded
+                    # tuple-vs-list finding; anything else is unknown.
+                    # JSON has no tuples: a difference that vanishes once every tuple in the two serialised forms
+                    # is read as a list (constraint attrs, index expressions, values inside Q objects) is the
+                    # recorded tuple-vs-list finding; anything else is unknown.
+                    if _listify(sa.serialize()) == _listify(sb.serialize()):
                         causes.add('C06-json-tuple-attr-becomes-list')
-                        found = True
-
-                    if not found:
+                    else:
                         return None
 
     return '+'.join(sorted(causes)) or None
@@ -2494,48 +2476,14 @@ def replay_C06(inputs):
 _BASE13 = make_spec([('f', ['CharField', {'max_length': 20, 'null': True}]),
                      ('g', ['IntegerField', {'null': True}])])
 
-_known(
-    'C13-q-single-q-child-render-crash', 'renders',
-    {'value': 'a Q object whose only child is another Q object, e.g. '
-              'Q(Q(a=1) | Q(b=2)) or Q(~Q(a=1))',
-     'observed': "TypeError: 'Q' object is not subscriptable from "
-                 "generate_hint()/get_evolution_content()"},
-    "QSerialization.serialize_to_python() assumes that a Q with exactly one "
-    "child holds a (lookup, value) tuple and indexes it (child[0]); for a "
-    "nested Q this raises TypeError, so no hinted evolution text can be "
-    "produced at all.",
-    {'kind': 'direct', 'spec': _BASE13, 'mutations': [
-        ['ChangeMeta', 'M', 'constraints', [
-            {'type': {'$cls': 'CheckConstraint'}, 'name': 'c',
-             'check': _Q('AND', False, [
-                 _Q('OR', False, [_kv('a', 1), _kv('b', 2)])])}]]]})
+# (fixed in /repo: C13-q-single-q-child-render-crash - see known_findings.json 'fixed')
 
-_known(
-    'C13-q-xor-render-crash', 'renders',
-    {'value': 'a Q object with two or more children joined by XOR',
-     'observed': "KeyError: 'XOR'"},
-    "QSerialization.child_separators only maps AND and OR; "
-    "Q(a=1) ^ Q(b=2) (supported by Django 4.1+) raises KeyError('XOR').",
-    {'kind': 'direct', 'spec': _BASE13, 'mutations': [
-        ['ChangeMeta', 'M', 'constraints', [
-            {'type': {'$cls': 'CheckConstraint'}, 'name': 'c',
-             'check': _Q('XOR', False, [_kv('a', 1), _kv('b', 2)])}]]]})
 
-_known(
-    'C13-models-import-only-for-addfield', 'loads',
-    {'mutations': 'no AddField with a django.db.models field type, but the '
-                  'text uses models.<...> (ChangeField(field_type=models.X), '
-                  'ChangeMeta with models.Q / models.F / '
-                  'models.CheckConstraint ...) or a custom field class',
-     'observed': "NameError: name 'models' is not defined (or the custom "
-                 "field class name) when the text is executed"},
-    "EvolveAppTask.get_evolution_content() collects imports only from "
-    "AddField mutations (`if isinstance(mutation, AddField)`), although "
-    "ChangeField and ChangeMeta hints also render `models.`-prefixed "
-    "values and field classes.",
-    {'kind': 'direct', 'spec': _BASE13, 'mutations': [
-        ['ChangeField', 'M', 'g', {'field_type': {'$cls': 'CharField'},
-                                   'max_length': 10, 'null': True}]]})
+# (fixed in /repo: C13-q-xor-render-crash - see known_findings.json 'fixed')
+
+
+# (fixed in /repo: C13-models-import-only-for-addfield - see known_findings.json 'fixed')
+
 
 _known(
     'C13-functions-rendered-as-models-attr', 'loads',
